@@ -786,6 +786,7 @@ type Outcome struct {
 	St    *State
 	Ret   Value
 	Panic *PanicInfo
+	Cut   bool // execution was cut at the first loop header of the function named by Engine.cutFn (ndAtFirstLoop)
 }
 
 type PanicInfo struct {
@@ -801,7 +802,7 @@ var keepGeometry bool
 // mergeOutcomes merges two normal outcomes that forked from a common state with
 // entryLen path-condition conjuncts.
 func mergeOutcomes(entryLen int, a, b *Outcome) (*Outcome, bool) {
-	if a.Panic != nil || b.Panic != nil {
+	if a.Panic != nil || b.Panic != nil || a.Cut || b.Cut {
 		return nil, false
 	}
 	if len(a.St.writes) != len(b.St.writes) || len(a.St.allocs) != len(b.St.allocs) {
